@@ -8,6 +8,14 @@ META = dict(
     stubs=["stdio = models/memio.c (bytes written are the bytes read; short reads at EOF; zero-filled gaps)",
            "error stack = models/herr_model.c (codes only)", "malloc never fails", "atom cache swap via H4_VERIF hook"],
     outside=["lengths/positions symbolic only in kernel harnesses", "transfers > 16 bytes", "more than 4 elements"],
+    manifest=dict(
+        level="Bounded model checking (CBMC/SAT) of the whole real libhdf on an in-memory stdio model: for each concrete call skeleton "
+              "(curated + seed-derived; contiguous, silently promoted, explicit linked blocks with small block sizes, external, two access ids, "
+              "dup/delete, reopen) the solver decides every transfer count, position, length and data byte for ALL payload contents, together with "
+              "every pointer/bounds check CBMC generates in the library. Skeletons are enumerated, not symbolic.",
+        note="Trusted: memio stdio contract, codes-only error stack, H4_VERIF atom-cache swap hook, malloc never fails, CBMC 6.11 + MiniSat. "
+             "Bounds: <=18 calls per skeleton, transfers <=16 bytes, file <=8 KiB. Lengths/positions are concrete per skeleton.",
+        technique="CBMC bounded model checking of real libhdf sources; symbolic payload, concrete call skeleton; native ASan replay of counterexamples"),
 )
 
 def curated():
